@@ -109,7 +109,7 @@ func l1Ops(kind string, num uint64, salt int) []sk.L1Op {
 
 func maxN(tier string) int {
 	if tier == "thorough" {
-		return 9
+		return 10
 	}
 	return 7
 }
